@@ -63,6 +63,21 @@ def matchesOf (env : MEnv) (h : Heap) : List Step → Nat → Val → MatchRes
 
 def hasStar (steps : List Step) : Bool := steps.any (fun s => s.1 == "x" || s.1 == "X")
 
+/-! ### side conditions of the theorems (decidable; the driver evaluates them per case) -/
+
+/-- steps of a destination path: item / attribute / plain-segment / `*` steps -/
+def wfStar : List Step → Bool
+  | [] => true
+  | (op, arg) :: r => (op == "x" || C01.wfSteps [(op, arg)]) && wfStar r
+
+/-- every object has a registered `get` (true for the default registrations: `object`) -/
+def classesOK (env : MEnv) : Bool :=
+  (match env.t.getReg.find? (fun x => x.1 == "object") with
+   | some (_, hn) => hn != "False"
+   | none => false) &&
+  env.t.ct.all (fun p => p.2.contains "object")
+
+
 end Glom.Mut
 
 namespace Glom.C11
